@@ -5,7 +5,8 @@
    w = _kcenter (window start), x = data, kap = cropped kernel; no bound on any of them. *)
 From Coq Require Import ZArith List Bool Lia QArith Qminmax Qabs Reals.
 From NV.Generated Require Import KernelSmooth.
-From NV.C18 Require Import Model ModelR Proofs1 Proofs2 Proofs3 Proofs4 ProofsR Source.
+From NV.C18 Require Import Model ModelR Proofs1 Proofs2 Proofs3 Proofs4 ProofsR Source ModelAxis ProofsAxis.
+From Coq Require Import Permutation.
 Import ListNotations.
 Close Scope Q_scope.
 Close Scope R_scope.
@@ -457,4 +458,73 @@ Proof. vm_compute. reflexivity. Qed.
 (* the executable first-argmax on a concrete cropped kernel (centre at index 3 of 8) *)
 Example kcenter_example :
   kcenter 8 (kern_of (fun d => (1 # Z.to_pos (1 + d * d))%Q) 3) = 3.
+Proof. vm_compute. reflexivity. Qed.
+
+(* ---- round 6: the points array of the kernel function filt(X, axis) (_normsq / __call__):
+   `_X = np.rollaxis(np.array(X, dtype=float64), axis)` modelled on strided views
+   (shape / strides / offset over a flat buffer), any number of point axes, any layout. *)
+
+(* the squared distance computed through the rolled view for the output point idx is the
+   one of the caller's entries X[idx with the coordinate number c inserted at `axis`],
+   for every number of point axes, strides, offset, buffer and coordinate-axis position *)
+Theorem kernel_call_reads_the_points_coordinates :
+  forall (sig : list Q) (buf : Z -> Q) (strides : list Z) (off : Z) (a : nat) (idx : list Z),
+  (a <= length idx)%nat -> length strides = S (length idx) ->
+  (forall c, vget buf (roll_front a strides) off (c :: idx) = vget buf strides off (insert_at a c idx)) /\
+  normsq_view sig buf strides off a idx = normsq_points sig buf strides off a idx.
+Proof.
+  intros sig buf strides off a idx Ha Hl. split.
+  - intro c. apply rolled_view_reads_points; assumption.
+  - apply normsq_view_is_points; assumption.
+Qed.
+Print Assumptions kernel_call_reads_the_points_coordinates.
+
+(* the result has the shape of the points array without the coordinate axis, the remaining
+   axes in their original order (removing the slot inserted at `axis` gives idx back), and
+   rolling only permutes the axes *)
+Theorem kernel_call_result_shape_and_order :
+  forall (a : nat) (shape : list Z), (a < length shape)%nat ->
+  out_shape shape a = remove_at a shape /\
+  S (length (out_shape shape a)) = length shape /\
+  Permutation (roll_front a shape) shape /\
+  (forall idx c, (a <= length idx)%nat ->
+     remove_at a (insert_at a c idx) = idx /\ roll_front a (insert_at a c idx) = c :: idx).
+Proof.
+  intros a shape Ha. split; [reflexivity|]. split; [rewrite out_shape_is_remove; apply remove_length; exact Ha|].
+  split; [apply roll_perm; exact Ha|].
+  intros idx c Hi. split; [apply remove_insert; exact Hi|apply roll_insert; exact Hi].
+Qed.
+Print Assumptions kernel_call_result_shape_and_order.
+
+(* whatever the memory layout: two views of the same logical array give the same result *)
+Theorem kernel_call_layout_independent :
+  forall (sig : list Q) (b1 b2 : Z -> Q) (s1 s2 : list Z) (o1 o2 : Z) (a : nat) (idx : list Z),
+  (a <= length idx)%nat -> length s1 = S (length idx) -> length s2 = S (length idx) ->
+  (forall j, length j = S (length idx) -> vget b1 s1 o1 j = vget b2 s2 o2 j) ->
+  normsq_view sig b1 s1 o1 a idx = normsq_view sig b2 s2 o2 a idx.
+Proof. exact normsq_layout_independent. Qed.
+Print Assumptions kernel_call_layout_independent.
+
+(* on 2-D point lists exchanging axis 0 with the coordinate axis IS the roll (so such lists
+   cannot tell the two apart); negative axis numbers address a valid axis, -1 the last *)
+Theorem swap_is_roll_on_point_lists_only :
+  forall (a : nat) (l : list Z), length l = 2%nat -> (a < 2)%nat -> swap_front a l = roll_front a l.
+Proof. exact swap_is_roll_2d. Qed.
+Print Assumptions swap_is_roll_on_point_lists_only.
+
+Theorem negative_axis_numbers :
+  forall nd axis, - nd <= axis < nd ->
+  (norm_axis nd axis < Z.to_nat nd)%nat /\ (0 < nd -> norm_axis nd (-1) = Z.to_nat (nd - 1)).
+Proof. intros nd axis H. split; [apply norm_axis_in_range; exact H|apply norm_axis_last]. Qed.
+Print Assumptions negative_axis_numbers.
+
+(* non-vacuity: a grid-shaped (4,5,6,3) block of points, coordinates last: rolled shape (3,4,5,6),
+   result shape (4,5,6); exchanging the axes instead would give (3,5,6,4) *)
+Example roll_grid_shaped_points :
+  roll_front (norm_axis 4 (-1)) [4; 5; 6; 3] = [3; 4; 5; 6] /\ out_shape [4; 5; 6; 3] (norm_axis 4 (-1)) = [4; 5; 6] /\
+  swap_front 3 [4; 5; 6; 3] = [3; 5; 6; 4].
+Proof. vm_compute. repeat split. Qed.
+(* C-contiguous (2,2,3) points, coordinates last: output point (i,j) reads buffer 6i+3j+c *)
+Example gather_c_contiguous :
+  gather [2; 2; 3] [6; 3; 1] 0 2 = [[0; 1; 2]; [3; 4; 5]; [6; 7; 8]; [9; 10; 11]].
 Proof. vm_compute. reflexivity. Qed.
